@@ -361,10 +361,17 @@ func oracleTable(h *rt.H, op, cpu, hk string, m int, names []string, tbl []strin
 	if p3 || !eqTbl(t3, tbl) {
 		h.Count("lut:arch-differs")
 		h.OracleFail("arch-byte-order", "table generated on a "+cpu+" CPU differs from the table generated on a "+other+" CPU (hashFromString decodes with binary."+srcOrder+")",
-			map[string]any{"op": op, "table_" + cpu: canon(tbl), "table_" + other: canon(t3)})
+			map[string]any{"op": op, "table_" + cpu: clip(canon(tbl)), "table_" + other: clip(canon(t3))})
 	} else {
 		h.Count("lut:arch-same")
 	}
+}
+
+func clip(s string) string {
+	if len(s) > 400 {
+		return s[:400] + "..."
+	}
+	return s
 }
 
 func hexAll(a []string) []string {
